@@ -39,6 +39,9 @@ def cases(tier, sd):
         if style in ('vacuum', 'fluid0'):
             m = dict(family=S.PulledBack.name, seed=int(rng.integers(1 << 20)),
                      base=['minkowski', 'kasner'][i % 2], period=2.0)
+            if (i // 6) % 3 == 2:
+                # a Lambda-vacuum (de Sitter): 'no matter' with Lambda = 3 H^2
+                m['base'] = 'desitter'
         elif style == 'solution':
             m = dict(family='solution',
                      module=['Collins_Stewart', 'Szekeres', 'LCDM'][int(rng.integers(3))])
@@ -51,7 +54,8 @@ def cases(tier, sd):
         out.append(dict(
             member=m, style='tensor' if style == 'vacuum' else style,
             vacuum=(style == 'vacuum'),
-            Lambda=(float(rng.choice([0.0, 0.0, 0.2, -0.1]))
+            Lambda=(0.27 if m.get('base') == 'desitter' else
+                    float(rng.choice([0.0, 0.0, 0.2, -0.1]))
                     if style in ('tensor', 'components') else 0.0),
             tetrad=[None, None, 'fluid'][int(rng.integers(3))],
             center=([float(v) for v in rng.uniform(-0.2, 0.2, 3)] if rng.random() < 0.5 else None),
